@@ -19,6 +19,9 @@ RULE_ADDED = {
     "C16b": "C16-R4 (KEY-INJECTIVE)", "C16c": "C16-R3 (next() after the loop)", "C18b": "C18-R2 (import completeness)", "C18c": "C18-R2 (verbatim import)", "C19b": "C19-R1 (digest only through the hash)",
     "C19c": "C19-R2 (single signer info)", "C20c": "C20-R9 (init before go)", "C02d": "C02-R2 (access-list loops)", "C04d": "C04-R5 (= C06-R7)", "C05d": "C05-R8 / C13-R8 (index after counting)",
     "C07d": "C07-R3 (exact zero tests)", "C11d": "C11-R7 (views write nothing)", "C16d": "C16-R1 (HasProof exact)", "C18d": "C18-R2 (dynamic deploy flags)", "C19d": "C19-R5 (no raw private scalar)",
+    "C01e": "C01-R7 (package-level slices cap == len)", "C03e": "C03-R3 a2 (environment built per call)", "C06e": "C06-R6 (every result committed)", "C08e": "C08-R8 (BinSearch estimate provenance)",
+    "C10e": "C10-R8 (= C03-R3 a/a2)", "C11e": "C11-R8 (signed fields bound)", "C12e": "C12-R6 (dispatcher writes nothing)", "C15e": "C15-R7 (= C03-R1 aliasing)",
+    "C18e": "C18-R2 (import-time deployment refusals)", "C19e": "C19-R6 (typed data unnarrowed)", "C20e": "C20-R10 (BOUNDS)",
 }
 
 
